@@ -279,7 +279,7 @@ def check_whole(case):
 # ------------------------------------------------------------------ domain C: change, THEN notification
 # only what the statement lists: log records and measurement values (attachments / dut_id are not promised a notification)
 ORDERED_STEPS = ['log-info', 'measure', 'log-framework', 'measure-dim', 'log-plug', 'measure-dim-2', 'measure-pair', 'measure-dim-pair',
-                 'measure-override', 'measure-dim-override', 'measure-dim-after-override']
+                 'measure-override', 'measure-dim-override', 'measure-dim-after-override', 'measure-dim-after-readback']
 _ORD = {'ready': False}
 
 
@@ -313,8 +313,9 @@ def ordered_case():
         return ms_.get('m2', {}).get('measured_value') == 1 and ms_.get('m3', {}).get('measured_value') == 2
       if step == 'measure-override':       # an already set value is set again
         return (rp.get('measurements') or {}).get('m', {}).get('measured_value') == 8
-      if step in ('measure-dim-override', 'measure-dim-after-override'):   # a coordinate written before is written again, then a new one
-        want = [[1, 11], [2, 20], [3, 30], [4, 40]] + ([[5, 50]] if step == 'measure-dim-after-override' else [])
+      if step in ('measure-dim-override', 'measure-dim-after-override', 'measure-dim-after-readback'):   # a coordinate written before is written again, then new ones
+        want = [[1, 11], [2, 20], [3, 30], [4, 40]] + ([[5, 50]] if step != 'measure-dim-override' else []) + (
+            [[6, 60]] if step == 'measure-dim-after-readback' else [])
         got = (rp.get('measurements') or {}).get('d', {}).get('measured_value')
         return got is not None and [list(x) for x in got] == want
       if step == 'measure-dim-pair':
@@ -356,6 +357,12 @@ def ordered_case():
           test.measurements.d[1] = 11
         elif step == 'measure-dim-after-override':
           test.measurements.d[5] = 50
+        elif step == 'measure-dim-after-readback':
+          # the phase keeps the handle of its measurement, reads the measurement back through the read API, and goes on
+          # writing through the handle (what a monitor thread does for the whole phase)
+          handle = test.measurements.d
+          test.get_measurement('d')
+          handle[6] = 60
         s.sleep(1.0)       # quiescence: the watcher runs until it waits on a fresh event
         view = latest['view']
         if view is None or not view_has(step, view):
